@@ -98,6 +98,24 @@ Generation == \E te \in Pick({10, 10, 10, 95}), sp \in Pick(Speeds) :
 Select == /\ UNCHANGED <<cfg, fit, ranked, phase, known>>
           /\ Log([name |-> "select", fs |-> <<>>, te |-> 0, speed |-> ""], Expect(ranked, FALSE, phase))
 Next == Len(hist) < Depth /\ (Add \/ AddAll \/ Generation \/ Select)
+\* the same actions on a schedule that walks a rosomaxa through its three phases early (initial -> exploration after `initialSize`
+\* individuals and a tick far from the end, -> exploitation at a tick close to the end) and keeps offering afterwards: random
+\* histories of this length rarely spend operations in exploitation that was reached through exploration
+GenerationAt(te) == \E sp \in Pick(Speeds) :
+         LET ph == CASE cfg.kind # "rosomaxa" -> phase
+                     [] phase = "initial" -> IF te > 90 THEN "exploitation" ELSE IF known >= cfg.initialSize THEN "exploration" ELSE "initial"
+                     [] phase = "exploration" -> IF te < 90 THEN "exploration" ELSE "exploitation"
+                     [] OTHER -> "exploitation" IN
+         /\ phase' = ph /\ known' = IF ph = "initial" THEN known ELSE 0
+         /\ UNCHANGED <<cfg, fit, ranked>>
+         /\ Log([name |-> "on_generation", fs |-> <<>>, te |-> te, speed |-> sp], Expect(ranked, FALSE, ph))
+NextWalk == Len(hist) < Depth /\
+            CASE Len(hist) < 4 -> Add
+              [] Len(hist) = 4 -> GenerationAt(10)
+              [] Len(hist) = 5 -> Add \/ AddAll
+              [] Len(hist) = 6 -> GenerationAt(95)
+              [] OTHER -> Add \/ AddAll \/ Select
+SpecWalk == Init /\ [][NextWalk]_vars
 Spec == Init /\ [][Next]_vars
 
 (******************************** properties *******************************)
